@@ -42,12 +42,16 @@ LEVEL_TEXT = ('== is evaluated on every ordered pair of a closed bounded '
 LEVEL_NOTE = ('Trusted: mc.canon (independent walker). Bounds: families of '
               '~900 + ~300 (quick), ~4500 + ~2100 (thorough) configurations.')
 
-ROOTS = ['eq', 'eqb', 'eqpar', 'eqpos', 'eqmd2']
+ROOTS = ['eq', 'eqb', 'eqpar', 'eqpos', 'eqmd2', 'eqc2', 'eqc3']
 FAMILIES = {
     'A': (['eq', 'eqb', 'eqpar', 'list2', 'tuple2', 'dict2', 'dict2r'], 2, 2),
     'M': (['eq', 'eqpos', 'list2', 'dictmix', 'dictmixr', 'dictenum',
            'dictenumr'], 2, 2),
     'D': (['eqmd2', 'eq', 'mlist'], 3, 1),
+    # functions made by one factory (same code object); containers that are
+    # named tuples or instances of a class derived from a named tuple
+    'F': (['eqc2', 'eqc3', 'eq'], 2, 1),
+    'N': (['eq', 'list1', 'ntsub'], 3, 1),
     'P': (['eq', 'list2', 'dictfs', 'dictfsr', 'dictcyc', 'dictcycr',
            'dictcycm'], 3, 1),
     'B': (['eq', 'eqb', 'eqpar', 'eqpos', 'list2', 'tuple1', 'dict2',
@@ -66,8 +70,8 @@ NCHUNK = 32
 
 
 def bounds(tier):
-  fams = (['A', 'M', 'S3', 'T', 'P', 'D'] if tier == 'quick' else
-          ['B', 'C', 'S3', 'T', 'P', 'D'])
+  fams = (['A', 'M', 'S3', 'T', 'P', 'D', 'F', 'N'] if tier == 'quick' else
+          ['B', 'C', 'S3', 'T', 'P', 'D', 'F', 'N'])
   return {'families': {f: FAMILIES[f] for f in fams},
           'alias_menu': ['eq', 'eq3'], 'alias_nodes': 4}
 
@@ -242,7 +246,10 @@ def run_unit(unit, tier, seed):
 def rewrites(cfg):
   """(name, rewritten config) pairs that must all be == cfg."""
   yield 'deepcopy', copy.deepcopy(cfg)
-  yield 'pickle', pickle.loads(pickle.dumps(cfg))
+  try:
+    yield 'pickle', pickle.loads(pickle.dumps(cfg))
+  except (pickle.PicklingError, AttributeError):
+    pass      # a callable that cannot be pickled (local function)
   yield 'clear_history', serialization.clear_argument_history(cfg)
   c = copy.deepcopy(cfg)
   # explicit defaults on every Buildable: set each unset defaulted parameter
